@@ -3968,7 +3968,57 @@ func E11DashOffsetRange(c *core.Ctx, r *core.Report) {
 					}
 					return true
 				})
-				if okForm {
+				// with math.Mod, the value stored is non-negative by construction: math.Mod keeps the sign of its dividend
+				isTotal := func(e ast.Expr) bool {
+					id, ok := core.Unparen(e).(*ast.Ident)
+					return ok && core.ObjOf(info, id) == total
+				}
+				var nonneg func(e ast.Expr) bool
+				nonneg = func(e ast.Expr) bool {
+					e = core.Unparen(e)
+					if name, call := core.MathFunc(info, e); call != nil {
+						switch name {
+						case "Abs":
+							return true
+						case "Mod":
+							return len(call.Args) == 2 && nonneg(call.Args[0])
+						}
+					}
+					if be, ok := e.(*ast.BinaryExpr); ok && be.Op == token.ADD {
+						for _, pr := range [][2]ast.Expr{{be.X, be.Y}, {be.Y, be.X}} {
+							if name, call := core.MathFunc(info, pr[0]); name == "Mod" && len(call.Args) == 2 && isTotal(call.Args[1]) && isTotal(pr[1]) {
+								return true // Mod(x, T) lies in (-T, T)
+							}
+						}
+						return nonneg(be.X) && nonneg(be.Y)
+					}
+					return isTotal(e)
+				}
+				usesMod, lastRHS := false, ast.Expr(nil)
+				ast.Inspect(is.Body, func(k ast.Node) bool {
+					switch x := k.(type) {
+					case *ast.ForStmt:
+						return false
+					case *ast.AssignStmt:
+						if len(x.Lhs) == 1 && len(x.Rhs) == 1 && x.Tok == token.ASSIGN {
+							if lid, ok := x.Lhs[0].(*ast.Ident); ok && core.ObjOf(info, lid) == off {
+								lastRHS = x.Rhs[0]
+								ast.Inspect(x.Rhs[0], func(q ast.Node) bool {
+									if ce, ok := q.(*ast.CallExpr); ok {
+										if name, _ := core.MathFunc(info, ce); name == "Mod" {
+											usesMod = true
+										}
+									}
+									return true
+								})
+							}
+						}
+					}
+					return true
+				})
+				if okForm && usesMod && lastRHS != nil && !nonneg(lastRHS) {
+					r.Fail("E11.dash-offset-range", key, c.Pos(lastRHS.Pos()), fmt.Sprintf("under `%s` the offset becomes `%s`, which is not non-negative by construction: math.Mod keeps the sign of its dividend, so for an offset below minus one period the result is still negative (accepted forms: math.Mod(x, T) + T, or math.Mod of such a value); the first dash then starts before the path and comes out too long", types.ExprString(is.Cond), types.ExprString(lastRHS)))
+				} else if okForm {
 					r.OK("E11.dash-offset-range", key, c.Pos(is.Pos()), "")
 				} else {
 					r.Fail("E11.dash-offset-range", key, c.Pos(is.Pos()), fmt.Sprintf("under `%s` the pattern length is combined with the offset without a loop or math.Mod: offsets below minus one period stay out of range", types.ExprString(is.Cond)))
@@ -10292,4 +10342,535 @@ func E11HexDigitPairs(c *core.Ctx, r *core.Report) {
 	_ = digits
 	r.Count("E11.hex-digit-pairs", n)
 	r.Floor("E11.hex-digit-pairs", 16)
+}
+
+// E11ToleranceThreaded: a function that is given a tolerance hands that tolerance on.
+func E11ToleranceThreaded(c *core.Ctx, r *core.Report) {
+	r.Rule("E11.tolerance-threaded", "the tolerance of Flatten (and of Stroke, Offset and the rasterizing sinks built on it) reaches the flatteners through parameters. The tolerance positions are found by a fixpoint over the package: parameter 0 of Path.Flatten; downwards, a callee's parameter that receives an expression over a tolerance parameter of the caller; upwards, a float64 parameter passed unchanged into a tolerance position. Then, in every function that has a tolerance parameter, each call that fills a tolerance position of its callee passes an expression that mentions the function's own tolerance parameter — not the package default `Tolerance` or a constant: with the default in one branch (non-circular arcs), Flatten(t) ignores t there, the deviation stays at 0.01–0.02 whatever was asked, and the vertex count stops growing as t shrinks")
+	p := c.MustPkg("")
+	info := p.TypesInfo
+	decls := map[*types.Func]*ast.FuncDecl{}
+	for _, fd := range core.AllFuncDecls(p) {
+		if f, ok := info.Defs[fd.Name].(*types.Func); ok && fd.Body != nil {
+			decls[f] = fd
+		}
+	}
+	paramObjs := func(fd *ast.FuncDecl) []types.Object {
+		var out []types.Object
+		for _, f := range fd.Type.Params.List {
+			if len(f.Names) == 0 {
+				out = append(out, nil)
+			}
+			for _, nm := range f.Names {
+				out = append(out, info.Defs[nm])
+			}
+		}
+		return out
+	}
+	isFloat := func(o types.Object) bool {
+		if o == nil {
+			return false
+		}
+		b, ok := o.Type().Underlying().(*types.Basic)
+		return ok && b.Kind() == types.Float64
+	}
+	tol := map[*types.Func]map[int]bool{}
+	mark := func(f *types.Func, i int) bool {
+		if tol[f] == nil {
+			tol[f] = map[int]bool{}
+		}
+		if tol[f][i] {
+			return false
+		}
+		tol[f][i] = true
+		return true
+	}
+	var flatten *types.Func
+	for f, fd := range decls {
+		if core.FuncName(fd) == "Path.Flatten" {
+			flatten = f
+		}
+	}
+	if flatten == nil {
+		panic(core.Infra("Path.Flatten not found"))
+	}
+	mark(flatten, 0)
+	mentionsAny := func(e ast.Expr, objs map[types.Object]bool) bool {
+		hit := false
+		ast.Inspect(e, func(m ast.Node) bool {
+			if id, ok := m.(*ast.Ident); ok && objs[core.ObjOf(info, id)] {
+				hit = true
+			}
+			return !hit
+		})
+		return hit
+	}
+	type site struct {
+		caller *types.Func
+		call   *ast.CallExpr
+		callee *types.Func
+	}
+	var sites []site
+	for f, fd := range decls {
+		ast.Inspect(fd.Body, func(m ast.Node) bool {
+			if call, ok := m.(*ast.CallExpr); ok {
+				if g := core.CalleeOf(info, call); g != nil && decls[g] != nil {
+					sites = append(sites, site{f, call, g})
+				}
+			}
+			return true
+		})
+	}
+	for changed := true; changed; {
+		changed = false
+		for _, s := range sites {
+			ps := paramObjs(decls[s.caller])
+			own := map[types.Object]bool{}
+			for i, o := range ps {
+				if tol[s.caller][i] && o != nil {
+					own[o] = true
+				}
+			}
+			gps := paramObjs(decls[s.callee])
+			for i, a := range s.call.Args {
+				if i >= len(gps) || !isFloat(gps[i]) {
+					continue
+				}
+				// downwards
+				if len(own) > 0 && mentionsAny(a, own) && !tol[s.callee][i] {
+					// only when the argument is built from the tolerance and constants/other tolerance-free scalars
+					if mark(s.callee, i) {
+						changed = true
+					}
+				}
+				// upwards: a float64 parameter passed unchanged
+				if tol[s.callee][i] {
+					if id, ok := core.Unparen(a).(*ast.Ident); ok {
+						for k, o := range ps {
+							if o != nil && core.ObjOf(info, id) == o && isFloat(o) && mark(s.caller, k) {
+								changed = true
+							}
+						}
+					}
+				}
+			}
+		}
+	}
+	n, positions := 0, 0
+	for _, m := range tol {
+		positions += len(m)
+	}
+	sort.Slice(sites, func(i, j int) bool { return sites[i].call.Pos() < sites[j].call.Pos() })
+	ord := map[string]int{}
+	for _, s := range sites {
+		if len(tol[s.caller]) == 0 {
+			continue
+		}
+		ps := paramObjs(decls[s.caller])
+		own := map[types.Object]bool{}
+		var ownNames []string
+		for i, o := range ps {
+			if tol[s.caller][i] && o != nil {
+				own[o] = true
+				ownNames = append(ownNames, o.Name())
+			}
+		}
+		for i, a := range s.call.Args {
+			if !tol[s.callee][i] {
+				continue
+			}
+			n++
+			base := fmt.Sprintf("canvas.%s -> %s|tolerance argument", core.FuncName(decls[s.caller]), core.FuncName(decls[s.callee]))
+			ord[base]++
+			key := fmt.Sprintf("%s #%d", base, ord[base])
+			if mentionsAny(a, own) {
+				r.OK("E11.tolerance-threaded", key, c.Pos(s.call.Pos()), types.ExprString(a))
+			} else {
+				r.Fail("E11.tolerance-threaded", key, c.Pos(s.call.Pos()), fmt.Sprintf("%s is given the tolerance `%s` but passes `%s` as the tolerance of %s: the caller's tolerance is ignored on this path, so the result deviates by what `%s` allows whatever was requested", core.FuncName(decls[s.caller]), strings.Join(ownNames, ", "), types.ExprString(a), core.FuncName(decls[s.callee]), types.ExprString(a)))
+			}
+		}
+	}
+	r.Count("E11.tolerance-positions", positions)
+	r.Count("E11.tolerance-threaded", n)
+	r.Floor("E11.tolerance-threaded", 8)
+}
+
+// E11IndentOnEveryPath: the first-line indent reaches the line breaker's items on every path.
+func E11IndentOnEveryPath(c *core.Ctx, r *core.Report) {
+	r.Rule("E11.indent-on-every-path", "GlyphsToItems turns glyphs into the boxes, glue and penalties the line breaker measures; RichText.ToText then places the first line at x = indent. The breaker must therefore measure the indent too: on every path through GlyphsToItems that returns the item list it built, a statement before the return uses the indent parameter in what it puts into that list (statements inside loops do not count, a loop may run zero times). If one branch — text that starts with white space — builds its first item without the indent, the first line is measured `indent` shorter than it is drawn: it sticks out of the box, and right-aligned and centred lines are shifted")
+	p := c.MustPkg("text")
+	info := p.TypesInfo
+	fd := core.MustFuncDecl(p, "GlyphsToItems")
+	r.Func("text.GlyphsToItems")
+	var indent types.Object
+	for _, f := range fd.Type.Params.List {
+		for _, nm := range f.Names {
+			if b, ok := info.TypeOf(f.Type).Underlying().(*types.Basic); ok && b.Kind() == types.Float64 {
+				indent = info.Defs[nm]
+			}
+		}
+	}
+	if indent == nil {
+		panic(core.Infra("GlyphsToItems: float64 parameter (indent) not found"))
+	}
+	mentions := func(n ast.Node, o types.Object) bool {
+		hit := false
+		ast.Inspect(n, func(m ast.Node) bool {
+			if id, ok := m.(*ast.Ident); ok && core.ObjOf(info, id) == o {
+				hit = true
+			}
+			return !hit
+		})
+		return hit
+	}
+	// the list: the slice of Item the returns hand back
+	isItems := func(e ast.Expr) bool {
+		id, ok := core.Unparen(e).(*ast.Ident)
+		if !ok {
+			return false
+		}
+		sl, ok := info.TypeOf(id).Underlying().(*types.Slice)
+		if !ok {
+			return false
+		}
+		nt, ok := sl.Elem().(*types.Named)
+		return ok && nt.Obj().Name() == "Item"
+	}
+	nRet := 0
+	var bad []ast.Node
+	var walk func(stmts []ast.Stmt, done bool) (bool, bool) // (done at fall-through, falls through)
+	walk = func(stmts []ast.Stmt, done bool) (bool, bool) {
+		for _, st := range stmts {
+			switch x := st.(type) {
+			case *ast.ReturnStmt:
+				if len(x.Results) == 1 && isItems(x.Results[0]) {
+					nRet++
+					if !done {
+						bad = append(bad, x)
+					}
+				}
+				return done, false
+			case *ast.BlockStmt:
+				d, falls := walk(x.List, done)
+				if !falls {
+					return d, false
+				}
+				done = d
+			case *ast.IfStmt:
+				dT, fT := walk(x.Body.List, done)
+				dF, fF := done, true
+				switch e := x.Else.(type) {
+				case *ast.BlockStmt:
+					dF, fF = walk(e.List, done)
+				case *ast.IfStmt:
+					dF, fF = walk([]ast.Stmt{e}, done)
+				}
+				switch {
+				case fT && fF:
+					done = dT && dF
+				case fT:
+					done = dT
+				case fF:
+					done = dF
+				default:
+					return done, false
+				}
+			case *ast.ForStmt:
+				walk(x.Body.List, done) // reports returns inside; contributes nothing
+			case *ast.RangeStmt:
+				walk(x.Body.List, done)
+			case *ast.SwitchStmt:
+				all, hasDefault := true, false
+				for _, cs := range x.Body.List {
+					cc := cs.(*ast.CaseClause)
+					if cc.List == nil {
+						hasDefault = true
+					}
+					d, falls := walk(cc.Body, done)
+					if falls && !d {
+						all = false
+					}
+				}
+				if !hasDefault {
+					all = all && done
+				}
+				done = done || all
+			default:
+				if mentions(st, indent) {
+					// the use must go into the list: an append to / element of a []Item, or an Item constructor
+					uses := false
+					ast.Inspect(st, func(m ast.Node) bool {
+						switch y := m.(type) {
+						case *ast.CallExpr:
+							if mentions(y, indent) {
+								if t := info.TypeOf(y); t != nil {
+									if nt, ok := t.(*types.Named); ok && nt.Obj().Name() == "Item" {
+										uses = true
+									}
+									if sl, ok := t.Underlying().(*types.Slice); ok {
+										if nt, ok := sl.Elem().(*types.Named); ok && nt.Obj().Name() == "Item" {
+											uses = true
+										}
+									}
+								}
+							}
+						case *ast.AssignStmt:
+							for i, l := range y.Lhs {
+								if se, ok := l.(*ast.SelectorExpr); ok && i < len(y.Rhs) && mentions(y.Rhs[i], indent) {
+									if ie, ok := core.Unparen(se.X).(*ast.IndexExpr); ok && isItems(ie.X) {
+										uses = true
+									}
+								}
+							}
+						}
+						return true
+					})
+					if uses {
+						done = true
+					}
+				}
+			}
+		}
+		return done, true
+	}
+	walk(fd.Body.List, false)
+	r.Count("E11.indent-returns", nRet)
+	r.Floor("E11.indent-returns", 1)
+	key := "text.GlyphsToItems|the indent is in the items on every path that returns them"
+	if len(bad) == 0 {
+		r.OK("E11.indent-on-every-path", key, c.Pos(fd.Pos()), fmt.Sprintf("%d returns of the list", nRet))
+	} else {
+		r.Fail("E11.indent-on-every-path", key, c.Pos(bad[0].Pos()), "a path through GlyphsToItems reaches this return without having put the indent into the item list (the statement that uses it sits in one branch only): the line breaker measures the first line without the indent while ToText draws it shifted by the indent, so the first line sticks out of the box by up to the indent and aligned lines are displaced")
+	}
+}
+
+// E11SignFlipPerIteration: a sign flipped inside a loop starts afresh in every iteration.
+func E11SignFlipPerIteration(c *core.Ctx, r *core.Report) {
+	r.Rule("E11.sign-flip-per-iteration", "where a loop body negates a variable in place (`v = -v`, under a condition on the current element: the sweep direction of this arc, the orientation of this glyph) the variable describes the current element only, so it is given a value that does not depend on its previous one earlier in the same iteration — it is declared in the loop body, or assigned there before the flip in a block that encloses the flip. Declared before the loop and flipped conditionally, the sign is carried over: in Path.offset a clockwise arc would swap inner and outer radius for itself and for every later arc of the sub-path")
+	n := 0
+	for _, rel := range []string{"", "text"} {
+		p := c.MustPkg(rel)
+		info := p.TypesInfo
+		for _, fd := range core.AllFuncDecls(p) {
+			if fd.Body == nil || strings.HasSuffix(c.Fset.Position(fd.Pos()).Filename, "_test.go") {
+				continue
+			}
+			var stack []ast.Node
+			k := 0
+			ast.Inspect(fd.Body, func(m ast.Node) bool {
+				if m == nil {
+					stack = stack[:len(stack)-1]
+					return true
+				}
+				stack = append(stack, m)
+				as, ok := m.(*ast.AssignStmt)
+				if !ok || len(as.Lhs) != 1 || len(as.Rhs) != 1 || as.Tok != token.ASSIGN {
+					return true
+				}
+				lid, ok := as.Lhs[0].(*ast.Ident)
+				if !ok {
+					return true
+				}
+				u, ok := core.Unparen(as.Rhs[0]).(*ast.UnaryExpr)
+				if !ok || u.Op != token.SUB {
+					return true
+				}
+				rid, ok := core.Unparen(u.X).(*ast.Ident)
+				if !ok || core.ObjOf(info, rid) != core.ObjOf(info, lid) {
+					return true
+				}
+				v := core.ObjOf(info, lid)
+				// innermost enclosing loop
+				var loopBody *ast.BlockStmt
+				loopIdx := -1
+				for i := len(stack) - 2; i >= 0 && loopBody == nil; i-- {
+					switch l := stack[i].(type) {
+					case *ast.ForStmt:
+						loopBody, loopIdx = l.Body, i
+					case *ast.RangeStmt:
+						loopBody, loopIdx = l.Body, i
+					case *ast.FuncLit:
+						i = -1
+					}
+				}
+				if loopBody == nil {
+					return true
+				}
+				k++
+				n++
+				key := fmt.Sprintf("%s.%s|sign flip of `%s` #%d", p.Types.Name(), core.FuncName(fd), lid.Name, k)
+				if loopBody.Pos() <= v.Pos() && v.Pos() < loopBody.End() {
+					r.OK("E11.sign-flip-per-iteration", key, c.Pos(as.Pos()), "declared in the loop body")
+					return true
+				}
+				// a fresh assignment before the flip, in a block on the path from the loop body to the flip
+				fresh := false
+				for i := loopIdx + 1; i < len(stack)-1; i++ {
+					var list []ast.Stmt
+					switch b := stack[i].(type) {
+					case *ast.BlockStmt:
+						list = b.List
+					case *ast.CaseClause:
+						list = b.Body
+					}
+					for _, s := range list {
+						if s.End() > as.Pos() {
+							break
+						}
+						if a2, ok := s.(*ast.AssignStmt); ok && len(a2.Lhs) == len(a2.Rhs) {
+							for j, l := range a2.Lhs {
+								if id2, ok := l.(*ast.Ident); ok && core.ObjOf(info, id2) == v {
+									self := false
+									ast.Inspect(a2.Rhs[j], func(q ast.Node) bool {
+										if id3, ok := q.(*ast.Ident); ok && core.ObjOf(info, id3) == v {
+											self = true
+										}
+										return true
+									})
+									if !self && a2.Tok == token.ASSIGN {
+										fresh = true
+									}
+								}
+							}
+						}
+					}
+				}
+				if fresh {
+					r.OK("E11.sign-flip-per-iteration", key, c.Pos(as.Pos()), "assigned afresh earlier in the iteration")
+				} else {
+					r.Fail("E11.sign-flip-per-iteration", key, c.Pos(as.Pos()), fmt.Sprintf("`%s = -%s` runs inside a loop but `%s` is declared before the loop and not given a fresh value earlier in the iteration: the flip made for one element stays in force for the following ones (and is undone by the next element that flips), so every second such element is treated with the wrong sign", lid.Name, lid.Name, lid.Name))
+				}
+				return true
+			})
+		}
+	}
+	r.Count("E11.sign-flip-per-iteration", n)
+	r.Floor("E11.sign-flip-per-iteration", 2)
+}
+
+// E11SplitKeepsEndpoint: a helper that cuts one arc into pieces ends the last piece at the arc's end point.
+func E11SplitKeepsEndpoint(c *core.Ctx, r *core.Report) {
+	r.Rule("E11.split-keeps-endpoint", "the helpers that replace one elliptical arc (start … end) by several pieces computed in a loop from angles — xmonotoneEllipticArc, the circular branch of flattenEllipticArc — hand back a path that ends at `end` itself: the last builder call of the function (after the loop), or the builder call inside the loop through a variable that is assigned `end` on the terminating iteration, takes the coordinates of the end parameter. A position recomputed from the final angle lies 1e-16 next to it; for a closed path the end no longer equals the start, and CCW — which picks the bottom-right-most point with a strict comparison — takes the zero-length closing segment for the corner: a clockwise circle of two half arcs is reported counter-clockwise and its stroke is empty")
+	p := c.MustPkg("")
+	info := p.TypesInfo
+	n := 0
+	for _, fd := range core.AllFuncDecls(p) {
+		if fd.Body == nil || fd.Recv != nil || fd.Type.Results.NumFields() != 1 {
+			continue
+		}
+		// parameters: first and last of type Point named in the signature; arcs have radii in between
+		var pts []types.Object
+		hasBool := false
+		for _, f := range fd.Type.Params.List {
+			for _, nm := range f.Names {
+				if nt, ok := info.TypeOf(f.Type).(*types.Named); ok && nt.Obj().Name() == "Point" {
+					pts = append(pts, info.Defs[nm])
+				}
+				if b, ok := info.TypeOf(f.Type).Underlying().(*types.Basic); ok && b.Kind() == types.Bool {
+					hasBool = true
+				}
+			}
+		}
+		if len(pts) != 2 || !hasBool {
+			continue // not an arc helper (start, radii, flags, end)
+		}
+		if pt, ok := info.TypeOf(fd.Type.Results.List[0].Type).(*types.Pointer); !ok || !strings.HasSuffix(pt.Elem().String(), ".Path") {
+			continue
+		}
+		end := pts[1]
+		// builder calls on a local path, in loops whose positions are computed in this function
+		builders := map[string]bool{"LineTo": true, "QuadTo": true, "CubeTo": true, "ArcTo": true}
+		type bc struct {
+			call   *ast.CallExpr
+			inLoop bool
+		}
+		var calls []bc
+		var visit func(n ast.Node, inLoop bool)
+		visit = func(n ast.Node, inLoop bool) {
+			ast.Inspect(n, func(m ast.Node) bool {
+				switch x := m.(type) {
+				case *ast.ForStmt:
+					if x != n {
+						visit(x.Body, true)
+						return false
+					}
+				case *ast.RangeStmt:
+					if x != n {
+						return false // pieces produced by another helper: that helper is the one to look at
+					}
+				case *ast.FuncLit:
+					return false
+				case *ast.CallExpr:
+					if se, ok := x.Fun.(*ast.SelectorExpr); ok && builders[se.Sel.Name] && len(x.Args) >= 2 {
+						if f := core.CalleeOf(info, x); f != nil && f.Pkg() == p.Types {
+							calls = append(calls, bc{x, inLoop})
+						}
+					}
+				}
+				return true
+			})
+		}
+		visit(fd.Body, false)
+		loopCalls := 0
+		for _, b := range calls {
+			if b.inLoop {
+				loopCalls++
+			}
+		}
+		if loopCalls == 0 {
+			continue
+		}
+		isEndCoord := func(call *ast.CallExpr) bool {
+			a := call.Args[len(call.Args)-2:]
+			var objs [2]types.Object
+			for i, e := range a {
+				se, ok := core.Unparen(e).(*ast.SelectorExpr)
+				if !ok {
+					return false
+				}
+				id, ok := core.Unparen(se.X).(*ast.Ident)
+				if !ok || (i == 0 && se.Sel.Name != "X") || (i == 1 && se.Sel.Name != "Y") {
+					return false
+				}
+				objs[i] = core.ObjOf(info, id)
+			}
+			if objs[0] != objs[1] {
+				return false
+			}
+			if objs[0] == end {
+				return true
+			}
+			// a local that is assigned the end parameter somewhere in the function
+			viaEnd := false
+			ast.Inspect(fd.Body, func(m ast.Node) bool {
+				if as, ok := m.(*ast.AssignStmt); ok && len(as.Lhs) == len(as.Rhs) {
+					for i, l := range as.Lhs {
+						if lid, ok := l.(*ast.Ident); ok && core.ObjOf(info, lid) == objs[0] {
+							if rid, ok := core.Unparen(as.Rhs[i]).(*ast.Ident); ok && core.ObjOf(info, rid) == end {
+								viaEnd = true
+							}
+						}
+					}
+				}
+				return true
+			})
+			return viaEnd
+		}
+		// group by the return that follows: every builder-in-loop group needs an end-coordinate call in the loop or after it
+		n++
+		key := fmt.Sprintf("canvas.%s|the last piece ends at the end parameter", core.FuncName(fd))
+		good := false
+		for _, b := range calls {
+			if isEndCoord(b.call) {
+				good = true
+			}
+		}
+		if good {
+			r.OK("E11.split-keeps-endpoint", key, c.Pos(fd.Pos()), "")
+		} else {
+			r.Fail("E11.split-keeps-endpoint", key, c.Pos(fd.Pos()), fmt.Sprintf("%s builds its pieces in a loop from recomputed positions and no builder call takes the coordinates of `%s`: the path handed back ends next to the arc's end point, not at it; a closed path is no longer closed exactly and CCW (strict comparison at the right-most point) misreads the orientation", core.FuncName(fd), end.Name()))
+		}
+	}
+	r.Count("E11.split-keeps-endpoint", n)
+	r.Floor("E11.split-keeps-endpoint", 2)
 }
